@@ -56,7 +56,7 @@ func init() {
 	core.Register(&core.Prop{
 		ID:    "C02",
 		Level: "exploration",
-		Rule: "seeded histories of 5-8 real install/upgrade/rollback/uninstall ops (22% deliberately failing: never-ready, hook failure, 500 on the n-th mutation; force/atomic/cleanup-on-fail/max-history on subsets) over 4-5 chart versions drawn from 14 resource slots (typed kinds, two custom kinds, one cluster-scoped) with resource-policy keep/delete/none toggling per version, 0-3 out-of-band edits before each op (field change, field removal, foreign fields, object deletion, keep added/removed), 3-6 bystanders and a second release in the namespace, on memory/secrets/configmaps storage. " +
+		Rule: "seeded histories of 5-8 real install/upgrade/rollback/uninstall ops (22% deliberately failing: never-ready, hook failure, 500 on the n-th mutation; force/atomic/cleanup-on-fail/max-history on subsets) over 4-5 chart versions drawn from 15 resource slots (typed kinds, two custom kinds, one cluster-scoped; Widget and HorizontalPodAutoscaler move between two served API versions of their group from chart version to chart version) with resource-policy keep/delete/none toggling per version, 0-3 out-of-band edits before each op (field change, field removal, foreign fields, object deletion, keep added/removed), 3-6 bystanders and a second release in the namespace, on memory/secrets/configmaps storage. " +
 			"distinct_nontrivial counts distinct (op kind+flags, #created, #patched/replaced, #deleted, #kept, drift kinds applied before the op, last-revision status) shapes among judged successful ops.",
 		Assumptions: []string{
 			"the simulated API server applies create/get/patch(strategic, JSON-merge)/replace/delete like a real API server and stores objects as sent (no defaulting, no admission, no controllers, synchronous deletion)",
@@ -107,11 +107,24 @@ func post(a *core.Agg) string {
 	need("stale_kept_by_live_policy", 1)
 	need("bystander_objects_compared", 300)
 	need("uninstalls_judged", 5)
+	need("resources_moved_to_another_api_version", 20)
 	need("uninstall_keep_resources_checked", 1)
 	if len(msgs) > 0 {
 		return "monitors observed too little: " + strings.Join(msgs, "; ")
 	}
 	return ""
+}
+
+// specOf returns the document without its apiVersion line: all served versions of a kind are one
+// stored object, which version spelling the store holds is not a field the manifest "specifies".
+func specOf(d ref.Doc) map[string]any {
+	o := make(map[string]any, len(d.Obj))
+	for k, v := range d.Obj {
+		if k != "apiVersion" {
+			o[k] = v
+		}
+	}
+	return o
 }
 
 func kindClass(d ref.Doc) string {
@@ -302,6 +315,11 @@ func judgeApply(res *core.Result, o *gen.StepObs, detail func() string, verbose 
 		if last == "failed" {
 			cause += ", last revision before the op was failed"
 		}
+		if dd, ok := deployedDoc[d.Key]; ok && dd.APIVersion != d.APIVersion {
+			if _, existed := o.S0[d.Key]; existed {
+				res.Stat("resources_moved_to_another_api_version", 1)
+			}
+		}
 		live := ref.DecodeObj(o.S1[d.Key])
 		if live == nil {
 			res.Stat("manifest_objects_compared", 1)
@@ -314,14 +332,14 @@ func judgeApply(res *core.Result, o *gen.StepObs, detail func() string, verbose 
 			// manifest before the op (left over from an earlier release, changed by a failed op, ...)
 			if before := ref.DecodeObj(o.S0[d.Key]); before != nil {
 				dd, ok := deployedDoc[d.Key]
-				if !ok || len(ref.Subsumes(before, dd.Obj, dd.Res)) > 0 {
+				if !ok || len(ref.Subsumes(before, specOf(dd), dd.Res)) > 0 {
 					res.Stat("custom_objects_skipped_diverged_before_op", 1)
 					continue
 				}
 			}
 		}
 		res.Stat("manifest_objects_compared", 1)
-		diffs := ref.Subsumes(live, d.Obj, d.Res)
+		diffs := ref.Subsumes(live, specOf(d), d.Res)
 		if len(diffs) > 0 {
 			class := fmt.Sprintf("%s · %s · %s", opClass(op), kindClass(d), cause)
 			if op.Kind == "rollback" && last != "deployed" && !d.Typed() {
